@@ -78,10 +78,14 @@ Definition is_block (q : qframe) : nat :=
 
 (* Frames written to an endpoint.  [seq] = value of the encoder counter when
    the block was HPACK-encoded; the receiver decodes the k-th arriving block
-   correctly iff its seq = k. *)
+   correctly iff its seq = k.  [tab] = the dynamic table size the relay's HPACK
+   encoder toward the recipient is using when the block is written (signalled
+   in-band by dynamic-table-size updates); the recipient can decode with the
+   table size it announced only if tab does not exceed it.  [qwire] leaves it
+   0; [bstep] stamps it. *)
 Inductive wire :=
 | WData (s : N) (es : bool) (d : bytes)
-| WBlock (s : N) (push : option N) (es : bool) (pr : option prio) (seq : nat) (fid : N)
+| WBlock (s : N) (push : option N) (es : bool) (pr : option prio) (seq : nat) (fid : N) (tab : N)
 | WPrio (s : N) (p : prio)
 | WRst (s : N) (code : N)
 | WSettings (kv : list (N * N))
@@ -97,8 +101,8 @@ Definition qwire (enc : nat) (q : qframe) : wire :=
   match q with
   | QData s es d => WData s es d
   | QHeaders s es pr fid =>
-      WBlock s None es (if prio_is_zero pr then None else Some pr) enc fid
-  | QPush s p fid => WBlock s (Some p) false None enc fid
+      WBlock s None es (if prio_is_zero pr then None else Some pr) enc fid 0
+  | QPush s p fid => WBlock s (Some p) false None enc fid 0
   | QPriority s p => WPrio s p
   | QRst s c => WRst s c
   end.
@@ -106,9 +110,9 @@ Definition qwire (enc : nat) (q : qframe) : wire :=
 Definition unq (w : wire) : option qframe :=
   match w with
   | WData s es d => Some (QData s es d)
-  | WBlock s None es pr _ fid =>
+  | WBlock s None es pr _ fid _ =>
       Some (QHeaders s es (match pr with Some p => p | None => prio0 end) fid)
-  | WBlock s (Some p) _ _ _ fid => Some (QPush s p fid)
+  | WBlock s (Some p) _ _ _ fid _ => Some (QPush s p fid)
   | WPrio s p => Some (QPriority s p)
   | WRst s c => Some (QRst s c)
   | _ => None
@@ -128,20 +132,29 @@ Definition pend_q (p : pend) : qframe :=
 
 (* f_cont X: pending header block in the frames sent by X.
    f_maxf X: max frame size for frames sent TO X (X's SETTINGS). *)
-Record fstate := mkF { cont_c : option pend; cont_s : option pend; maxf_c : N; maxf_s : N }.
+(* f_tab X: HEADER_TABLE_SIZE announced by X = table size of the relay's encoder toward X
+   (updateTableSize, applied when X's SETTINGS frame is processed). *)
+Record fstate := mkF { cont_c : option pend; cont_s : option pend; maxf_c : N; maxf_s : N;
+                       tab_c : N; tab_s : N }.
+Definition f_tab (f : fstate) (x : side) := match x with Cl => tab_c f | Sv => tab_s f end.
 Definition f_cont (f : fstate) (x : side) := match x with Cl => cont_c f | Sv => cont_s f end.
 Definition f_maxf (f : fstate) (x : side) := match x with Cl => maxf_c f | Sv => maxf_s f end.
 Definition set_cont (f : fstate) (x : side) (c : option pend) : fstate :=
   match x with
-  | Cl => mkF c (cont_s f) (maxf_c f) (maxf_s f)
-  | Sv => mkF (cont_c f) c (maxf_c f) (maxf_s f)
+  | Cl => mkF c (cont_s f) (maxf_c f) (maxf_s f) (tab_c f) (tab_s f)
+  | Sv => mkF (cont_c f) c (maxf_c f) (maxf_s f) (tab_c f) (tab_s f)
   end.
 Definition set_maxf (f : fstate) (x : side) (v : N) : fstate :=
   match x with
-  | Cl => mkF (cont_c f) (cont_s f) v (maxf_s f)
-  | Sv => mkF (cont_c f) (cont_s f) (maxf_c f) v
+  | Cl => mkF (cont_c f) (cont_s f) v (maxf_s f) (tab_c f) (tab_s f)
+  | Sv => mkF (cont_c f) (cont_s f) (maxf_c f) v (tab_c f) (tab_s f)
   end.
-Definition f0 : fstate := mkF None None 16384 16384.
+Definition set_tab (f : fstate) (x : side) (v : N) : fstate :=
+  match x with
+  | Cl => mkF (cont_c f) (cont_s f) (maxf_c f) (maxf_s f) v (tab_s f)
+  | Sv => mkF (cont_c f) (cont_s f) (maxf_c f) (maxf_s f) (tab_c f) v
+  end.
+Definition f0 : fstate := mkF None None 16384 16384 4096 4096.
 
 Inductive action :=
 | AEnq (to : side) (q : qframe)            (* enqueueFrame / data(): enqueue + emitEligibleFrames *)
@@ -179,6 +192,8 @@ Definition settings_actions (y : side) (kv : list (N * N)) : list action :=
   flat_map (fun p => if N.eqb (fst p) 4 then [ASetInit y (snd p)] else []) kv.
 Definition settings_maxf (cur : N) (kv : list (N * N)) : N :=
   fold_left (fun m p => if N.eqb (fst p) 5 then snd p else m) kv cur.
+Definition settings_tab (cur : N) (kv : list (N * N)) : N :=
+  fold_left (fun m p => if N.eqb (fst p) 1 then snd p else m) kv cur.
 
 (* Checks made by the source Framer (ReadFrame returns an error). *)
 Definition frame_ok (c : option pend) (fr : frame) : bool :=
@@ -224,7 +239,7 @@ Definition front (f : fstate) (y : side) (fr : frame) : option (fstate * list ac
   | FPriority s p => Some (f, [AEnq z (QPriority s p)])
   | FRst s c => Some (f, [AEnq z (QRst s c)])
   | FSettings kv =>
-      Some (set_maxf f y (settings_maxf (f_maxf f y) kv),
+      Some (set_tab (set_maxf f y (settings_maxf (f_maxf f y) kv)) y (settings_tab (f_tab f y) kv),
             settings_actions y kv ++ [ADirect z (WSettings kv)])
   | FSettingsAck => Some (f, [ADirect z WAck])
   | FPing a d => Some (f, [ADirect z (WPing a d)])
@@ -340,17 +355,21 @@ Definition act_side (a : action) : side :=
   | AEnq t _ | ACredit t _ _ | ASetInit t _ | AConnWU t _ | AStrWU t _ _ | ADirect t _ => t
   end.
 
-Definition bstep (b : bstate) (order : list N) (a : action) : bstate * list event :=
+Definition stamp (tab : N) (w : wire) : wire :=
+  match w with WBlock s p es pr q fid _ => WBlock s p es pr q fid tab | _ => w end.
+
+(* tabs: the table size of the relay's encoder toward each endpoint *)
+Definition bstep (tabs : side -> N) (b : bstate) (order : list N) (a : action) : bstate * list event :=
   let t := act_side a in
   let (x', ws) := flow_act (getf b t) order a in
-  (setf b t x', tag t ws).
+  (setf b t x', tag t (map (stamp (tabs t)) ws)).
 
-Fixpoint bsteps (b : bstate) (order : list N) (acts : list action) : bstate * list event :=
+Fixpoint bsteps (tabs : side -> N) (b : bstate) (order : list N) (acts : list action) : bstate * list event :=
   match acts with
   | [] => (b, [])
   | a :: t =>
-      let (b1, e1) := bstep b order a in
-      let (b2, e2) := bsteps b1 order t in (b2, e1 ++ e2)
+      let (b1, e1) := bstep tabs b order a in
+      let (b2, e2) := bsteps tabs b1 order t in (b2, e1 ++ e2)
   end.
 
 (* ------------------------------------------------------------ composition *)
@@ -362,7 +381,7 @@ Definition step (st : state) (l : label) : option (state * list event) :=
   match front (sf st) (l_from l) (l_frame l) with
   | None => None
   | Some (f', acts) =>
-      let (b', evs) := bsteps (sb st) (l_order l) acts in Some (mkS f' b', evs)
+      let (b', evs) := bsteps (f_tab f') (sb st) (l_order l) acts in Some (mkS f' b', evs)
   end.
 
 (* Runs until the first reader error; one event list per executed label. *)
